@@ -579,11 +579,11 @@ func (c *Ctx) checkActorConfinement() {
 			if rootsInAlloc(addrOf(a.Instr)) {
 				continue // composite literal of a topic that is not running yet
 			}
-			construct := fmt.Sprintf("%s: %s Topic.%s off-actor", fk(a.Fn), accessClass(a.Kind), name)
-			if seen[construct] {
+			perFn := fmt.Sprintf("%s: %s Topic.%s", fk(a.Fn), accessClass(a.Kind), name)
+			if seen[perFn] {
 				continue
 			}
-			seen[construct] = true
+			seen[perFn] = true
 			roots := ri.of(a.Fn)
 			var bad []string
 			for rt := range roots {
@@ -593,12 +593,20 @@ func (c *Ctx) checkActorConfinement() {
 			}
 			sort.Strings(bad)
 			if len(bad) == 0 {
-				r.OK("C14.3-actor-confinement", fmt.Sprintf("%s: %s Topic.%s", fk(a.Fn), accessClass(a.Kind), name), c.pos(a.Instr), "only on the topic's goroutine")
+				r.OK("C14.3-actor-confinement", perFn, c.pos(a.Instr), "only on the topic's goroutine")
 				continue
 			}
+			// a race is a pair (foreign goroutine, field): the finding is named after the goroutine(s)
+			// on which the access happens and the field, not after the function the access sits in, so
+			// that moving the access into a helper on the same goroutine is not a new finding
+			construct := fmt.Sprintf("goroutine %s: %s Topic.%s off-actor", strings.Join(bad, ", "), accessClass(a.Kind), name)
+			if seen[construct] {
+				continue
+			}
+			seen[construct] = true
 			r.Func(fk(a.Fn))
 			r.Fail("C14.3-actor-confinement", construct, c.pos(a.Instr),
-				fmt.Sprintf("topic state owned by the topic goroutine is %s on other goroutines %v: data race (concurrent map access is fatal in Go)", accessVerb(a.Kind), bad))
+				fmt.Sprintf("topic state owned by the topic goroutine is %s on another goroutine (in %s): data race (concurrent map access is fatal in Go)", accessVerb(a.Kind), fk(a.Fn)))
 		}
 	}
 }
